@@ -46,8 +46,8 @@ def build(img, prof, P=None, size_bytes=None):
     if prof.get("data_gap"):
         ds = (to + 4 * img["n"] + 511) // 512 * 512 + prof["data_gap"]
     vf, info = enc_vhd.build(img, block_size=bs, table_offset=to, data_start=ds, P=(img["n"] + 1 if P is None else P),
-                             size_bytes=size_bytes, original_size=prof.get("original_size"), footer_kw=prof.get("footer"))
-    return disk.Built(open=lambda: _open(vf), cell=info["cell"], size=info["size"], bases={0: info["base"]}, files=[vf],
+                             size_bytes=size_bytes, original_size=prof.get("original_size"), footer_kw=prof.get("footer"), file_id=prof.get("fid", 0))
+    return disk.Built(open=lambda: _open(vf), cell=info["cell"], size=info["size"], bases={0: info["base"]}, files=[vf], fids={0: prof.get("fid", 0)},
                       note={k: v for k, v in prof.items() if k != "when"}, cb=info["cb"], stride=info["stride"])
 
 
@@ -68,6 +68,7 @@ def make_trace(tid, rng, nops=30, **opt):
     img = {"kind": kind, "n": n, "cb": 1, "bat": {i: bat[i] for i in range(n)}, "size": n, "foot511": rng.random() < 0.25}
     prof = {"block_size": bs, "table_offset": rng.choice([1536, 2048, 4096]), "original_size": rng.choice([None, size_b + bs, 0]),
             # footer fields that do not influence the mapping
+            "fid": rng.randrange(0, 0x90),   # identity of this image
             "footer": {"features": rng.choice([2, 2, 3]), "uid": bytes(rng.randrange(256) for _ in range(16)), "timestamp": rng.getrandbits(32),
                        "geometry": rng.choice([0x03FF103F, 0, 0xFFFF10FF])}}
     b = build(img, prof, P=npos, size_bytes=size_b)
